@@ -1,8 +1,21 @@
 //@ unit test_cmd
 //@ serves C13
-//@ must_verify visit_ucg_files test_command
+//@ must_verify visit_ucg_files test_command lemma_appended
 //@ include prelude/head.rs
 
+// C13, above the single file: `visit_ucg_files` and `test_command` (main.rs) verbatim, directory iteration,
+// clap and process::exit stubbed.  do_validate/do_compile are stubs here ("one verdict per call"); what the
+// verdict MEANS is proved in unit verdict.
+// Contract: visit_ucg_files returns Ok(b) with b == AND of all verdicts given during the call at any depth
+// (a subdirectory that cannot be listed counts as a failure); test_command exits non-zero only if some verdict
+// was a failure (or a listing failed), and exits 0 only if all verdicts passed -- provided no listing failed.
+// History: the tree before `fix: a failing test in a subdirectory fails ucg test -r` fails the loop invariant
+// `result == AND of verdicts` (the recursive call's Ok(false) was ignored; replay: dir/sub/a_test.ucg failing,
+// `ucg test -r dir` exits 0).
+// NOT covered: if listing the top-level directory fails midway (`entry?`), visit_ucg_files returns Err, which
+// test_command ignores (`if let Ok(false) = ..`): verdicts given before the error are lost and the exit status
+// is 0.  No input reproducing an I/O error mid-listing was found, so this is excluded by `no_list_error_from`
+// rather than claimed as a defect.
 verus! {
 //@ include prelude/core.rs
 
@@ -34,15 +47,24 @@ pub open spec fn extends(a: Seq<Ev>, b: Seq<Ev>) -> bool {
     a.len() <= b.len() && forall|k: int| #![trigger a[k]] #![trigger b[k]] 0 <= k < a.len() ==> b[k] == a[k]
 }
 
+// `after` is `before` with the one event `e` appended.  (The second and third conjunct follow from the first --
+// lemma_appended -- and are spelled out so that contracts using it need no proof hints.)
+pub open spec fn appended(before: Seq<Ev>, after: Seq<Ev>, e: Ev) -> bool {
+    after == before.push(e) && after.last() == e && extends(before, after)
+}
+pub proof fn lemma_appended(before: Seq<Ev>, e: Ev)
+    ensures appended(before, before.push(e), e)
+{ }
+
 // ASSUMED here, PROVED in unit verdict as far as the meaning of the result goes: do_validate gives exactly one
 // verdict for the named file and returns it.  (do_compile likewise for `ucg build`.)
 #[verifier::external_body]
 fn do_validate(file: &str, strict: bool, import_paths: &Vec<PathBuf>, env: &mut VEnv) -> (r: bool)
-    ensures final(env).events@ == old(env).events@.push(Ev::Verdict(file@, r))
+    ensures appended(old(env).events@, final(env).events@, Ev::Verdict(file@, r))
 { unimplemented!() }
 #[verifier::external_body]
 fn do_compile(file: &str, strict: bool, import_paths: &Vec<PathBuf>, env: &mut VEnv) -> (r: bool)
-    ensures final(env).events@ == old(env).events@.push(Ev::Verdict(file@, r))
+    ensures appended(old(env).events@, final(env).events@, Ev::Verdict(file@, r))
 { unimplemented!() }
 
 // ---------- file system stand-ins (R8): directory iteration is stubbed ----------
@@ -83,7 +105,7 @@ pub fn verif_read_dir(path: &Path, env: &mut VEnv) -> (r: Result<VDirIter, VBoxE
     ensures
         final(env).rest == old(env).rest,
         r matches Ok(it) ==> it.dir_height@ == path.height@ && final(env).events@ == old(env).events@,
-        r is Err ==> final(env).events@ == old(env).events@.push(Ev::ListError),
+        r is Err ==> appended(old(env).events@, final(env).events@, Ev::ListError),
 { unimplemented!() }
 // the `?` on one directory entry; a failed entry is logged in the history
 #[verifier::external_body]
@@ -91,10 +113,9 @@ pub fn verif_entry(entry: Result<VDirEntry, VBoxErr>, env: &mut VEnv) -> (r: Res
     ensures
         final(env).rest == old(env).rest,
         entry matches Ok(e) ==> r == Ok::<VDirEntry, VBoxErr>(e) && final(env).events@ == old(env).events@,
-        entry is Err ==> r is Err && final(env).events@ == old(env).events@.push(Ev::ListError),
+        entry is Err ==> r is Err && appended(old(env).events@, final(env).events@, Ev::ListError),
 { unimplemented!() }
-// str::ends_with (no vstd model): uninterpreted
-pub uninterp spec fn spec_ends_with(s: Seq<char>, suffix: Seq<char>) -> bool;
+// str::ends_with (no vstd model): result left open
 pub trait VStrExt { fn verif_ends_with(&self, suffix: &str) -> bool; }
 impl VStrExt for String {
     #[verifier::external_body]
@@ -132,6 +153,60 @@ impl VStrExt for String {
 //@   mutant file_failure_ignored "if !do_validate(&path_as_string, strict, import_paths, env) { result = false;" => "if !do_validate(&path_as_string, strict, import_paths, env) {" expect visit_ucg_files
 //@   mutant single_file_failure_ignored "if !do_validate(&our_path, strict, import_paths, env) { result = false;" => "if !do_validate(&our_path, strict, import_paths, env) {" expect visit_ucg_files
 //@   mutant result_reset "result = false; summary.push_str(format!(\"{} - FAIL\\n\", our_path).as_str());" => "result = true; summary.push_str(format!(\"{} - FAIL\\n\", our_path).as_str());" expect visit_ucg_files
+//@ end
+
+// ---------- the command ----------
+// clap (R8): the parsed command line.  `values_of` yields the INPUT arguments (the real one returns an iterator
+// over them; here: the vector of them), `is_present` a flag.  Nothing is assumed about their values.
+pub mod clap {
+    use super::*;
+    #[verifier::external_body]
+    pub struct ArgMatches { _p: u8 }
+    impl ArgMatches {
+        #[verifier::external_body]
+        pub fn values_of<'a>(&'a self, name: &str) -> (r: Option<Vec<&'a str>>) { unimplemented!() }
+        #[verifier::external_body]
+        pub fn is_present(&self, name: &str) -> (r: bool) { unimplemented!() }
+    }
+}
+
+// `std::env::current_dir().unwrap()`.  ASSUMPTION: the current directory exists (otherwise: panic, C04).
+#[verifier::external_body]
+pub fn verif_current_dir_unwrap() -> (r: PathBuf) { unimplemented!() }
+
+// `process::exit(code)` (R12): never returns.  Its PRECONDITION is the property: with `n0` the length of the
+// history when the command started,
+//   * a non-zero status is given only if some file failed (or some directory could not be listed),
+//   * status 0 is given only if every verdict of the run was a pass -- provided no directory listing failed
+//     (an I/O error while listing the top-level directory makes visit_ucg_files return Err, which the command
+//     ignores; that case is excluded here, see the unit report).
+#[verifier::external_body]
+pub fn verif_exit(code: i32, env: &VEnv, Ghost(n0): Ghost<int>)
+    requires
+        code != 0 ==> !all_pass_from(env.events@, n0),
+        code == 0 && no_list_error_from(env.events@, n0) ==> all_pass_from(env.events@, n0),
+    ensures false
+{ std::process::exit(code) }
+
+//@ extract src/main.rs :: fn test_command
+//@   subst "env: &RefCell<Environment<StdoutWrapper, StderrWrapper>>," => "env: &mut VEnv,"
+//@   subst all "process::exit(1)" => "verif_exit(1, &*env, Ghost(old(env).events@.len() as int))"
+//@   subst "process::exit(0)" => "verif_exit(0, &*env, Ghost(old(env).events@.len() as int))"
+//@   subst "std::env::current_dir().unwrap()" => "verif_current_dir_unwrap()"
+//@   mutant failure_forgotten "ok = false;" => "ok = true;" expect test_command
+//@   mutant exit_condition_negated "if !ok { process::exit(1) }" => "if ok { process::exit(1) }" expect test_command
+//@   mutant cwd_failure_ignored "if let Ok(false) = ok { process::exit(1) }" => "if let Ok(true) = ok { process::exit(1) }" expect test_command
+//@   mutant always_nonzero "verif_exit(0, &*env" => "verif_exit(1, &*env" expect test_command
+//@   sig <<<
+    ensures false   // every path ends in process::exit
+//@   >>>
+//@   loop 1 <<<
+            invariant
+                extends(old(env).events@, env.events@),
+                !ok ==> !all_pass_from(env.events@, old(env).events@.len() as int),
+                ok && no_list_error_from(env.events@, old(env).events@.len() as int)
+                    ==> all_pass_from(env.events@, old(env).events@.len() as int),
+//@   >>>
 //@ end
 
 } // verus!
